@@ -134,6 +134,7 @@ def expand(ctx: Ctx, pid: str, fam: list[dict], rng: random.Random) -> tuple[lis
         bases = (pick(lambda d: d["phases"] == ["coverage", "fuzzing"] and d["workers"] >= 2, nb // 3 + 1)
                  + pick(lambda d: "stateful" in d["phases"] and len(d["phases"]) == 2, nb // 3 + 1)
                  + pick(lambda d: len(d["phases"]) == 4, nb // 5 + 1)
+                 + pick(lambda d: d["phases"][0] == "probing", nb // 5 + 1)
                  + pick(lambda d: d["phases"] == ["stateful"], nb // 5 + 1))
         recipe = {"stop": "all", "ctrlc": "all", "faults": 2 if quick else 6}
         # transient internal errors inside stateful steps (status consistency between scenario, suite and phase)
